@@ -1,0 +1,53 @@
+//go:build verif
+
+package jen
+
+// Contracts for the verification condition generator in /verif (jvc). This file contains only
+// comments: with the build tag off it is not compiled, with it on it adds nothing to the binary.
+// Syntax: see /verif/DESIGN.md section 2.4.
+
+//@ func IsReservedWord [C05]
+//@   ensures [C05] oracle: (isKeyword(alias) || isUniverse(alias)) ==> result
+//@   ensures [C05] member: result <==> (exists j int :: 0 <= j && j < len(reserved) && reserved[j] == alias)
+//@   loop 1 invariant notyet: forall j int :: (0 <= j && j < $i) ==> reserved[j] != alias
+//@   loop 1 invariant bound: $i <= len(reserved)
+
+//@ func (*File).isLocal [C06]
+//@   requires f != nil
+//@   ensures [C06] exact: result == (f.path == path)
+
+//@ func (*File).isValidAlias [C03,C05,C06]
+//@   requires f != nil
+//@   ensures [C03,C05,C06] spec: result == (alias == "." || (!isReserved(alias) && (forall p string :: has(f.imports, p) ==> f.imports[p].name != alias)))
+//@   loop 1 invariant seen: forall j int :: (0 <= j && j < $i) ==> $m[$ks[j]].name != alias
+
+//@ func (*File).isDotImport [C06,C08,C19]
+//@   requires f != nil
+//@   ensures [C06] hint: result == isDotHint(mapof(f.hints), path)
+
+//@ func guessAlias [C05]
+//@   ensures [C05] ident: identLower(result)
+//@   loop 1 invariant alnum: alnumLower(alias)
+
+//@ func (*File).register [C03,C04,C05,C06,C08,C18,C19]
+//@   requires f != nil && f.imports != nil && f.imports != f.hints
+//@   requires wfImp(mapof(f.imports)) && uniq(mapof(f.imports))
+//@   requires hintsOK(mapof(f.hints))
+//@   requires f.PackagePrefix == "" || goIdent(f.PackagePrefix)
+//@   free requires stdtable: forall p string :: { standardLibraryHints[p] } standardLibraryHints[p] != "" ==> (goIdent(standardLibraryHints[p]) && standardLibraryHints[p] != "_")
+//@   modifies mapof(f.imports)
+//@   ensures [C06,C04] local: f.path == path ==> (result == "" && mapof(f.imports) == old(mapof(f.imports)))
+//@   ensures [C08] stable: (f.path != path && old(proper(f.imports[path]))) ==> (result == old(f.imports[path].name) && mapof(f.imports) == old(mapof(f.imports)))
+//@   ensures [C03] bound: f.path != path ==> (has(f.imports, path) && f.imports[path].name == result && proper(f.imports[path]))
+//@   ensures [C03,C04,C08] others: forall q string :: q != path ==> (has(f.imports, q) == old(has(f.imports, q)) && f.imports[q] == old(f.imports[q]))
+//@   ensures [C05,C03] uniq: (f.path != path && path != "C") ==> uniq(mapof(f.imports))
+//@   ensures [C05,C19] uniqC: (f.path != path && path == "C") ==> uniq(mapof(f.imports))
+//@   ensures wf: wfImp(mapof(f.imports))
+//@   ensures [C05] legal: (f.path != path && !old(proper(f.imports[path])) && path != "C") ==> legalName(result)
+//@   ensures [C06] dot: (f.path != path && !old(proper(f.imports[path])) && path != "C" && isDotHint(mapof(f.hints), path)) ==> (result == "." && f.imports[path].alias)
+//@   ensures [C19] cgo: (f.path != path && path == "C") ==> (result == "C" && (!old(proper(f.imports[path])) ==> !f.imports["C"].alias))
+//@   ensures [C03,C18] unaliased: (f.path != path && path != "C" && !old(proper(f.imports[path])) && !f.imports[path].alias) ==>
+//@       ((f.hints[path].name == result && !f.hints[path].alias) || (f.hints[path].name == "" && standardLibraryHints[path] == result))
+//@   ensures [C18] stdhit: (f.path != path && path != "C" && !old(proper(f.imports[path])) && f.hints[path].name == "" && standardLibraryHints[path] != "" && !f.imports[path].alias) ==> result == standardLibraryHints[path]
+//@   loop 1 invariant cand: (i == 0 && unique == name) || (i >= 1 && unique == name + itoa(i))
+//@   loop 1 invariant named: name != "" && name != "_" && (name == "." || goIdent(name)) && (i >= 1 ==> name != ".")
